@@ -85,12 +85,9 @@ func runCheck(ld *Loaded, db *SpecDB, work string, t0 time.Time) int {
 		order = append(order, key)
 	}
 	direct := len(order)
-	for i := 0; i < len(order); i++ {
-		key := order[i]
-		fn := ld.byKey[key]
-		rep := ex.verifyFunction(fn)
-		rep.Dependency = i >= direct
-		reports = append(reports, rep)
+	admitted := map[string][]*Obligation{} // function key -> its obligations that belong to this check
+	admit := func(rep *FuncReport) []*Obligation {
+		var out []*Obligation
 		for _, ob := range rep.Obls {
 			if rep.Dependency && hasProp(ob.Props, "!explicit") && !hasProp(ob.Props, prop) && ob.Kind != "cover" {
 				// a clause written for another property: decided by that property's check
@@ -100,9 +97,19 @@ func runCheck(ld *Loaded, db *SpecDB, work string, t0 time.Time) int {
 				if rep.Dependency && prop != "" && !hasProp(ob.Props, prop) {
 					ob.Props = append(append([]string(nil), ob.Props...), prop)
 				}
-				all = append(all, ob)
+				out = append(out, ob)
 			}
 		}
+		return out
+	}
+	for i := 0; i < len(order); i++ {
+		key := order[i]
+		fn := ld.byKey[key]
+		rep := ex.verifyFunction(fn)
+		rep.Dependency = i >= direct
+		reports = append(reports, rep)
+		admitted[key] = admit(rep)
+		all = append(all, admitted[key]...)
 		if prop == "" || *flagFunc != "" {
 			continue
 		}
@@ -157,6 +164,64 @@ func runCheck(ld *Loaded, db *SpecDB, work string, t0 time.Time) int {
 			}(ob)
 		}
 		rwg.Wait()
+	}
+	// Loop invariants are auxiliary: an invariant that was discharged on the baseline tree and
+	// does not hold for the loop as it is now shows that the loop changed, not that a property is
+	// violated. The block is set aside, the function is verified again with that loop unrolled
+	// (bounded, reported as such) and the verdict is taken from its contract clauses, call-site
+	// clauses and run-time checks on all runs within the bound.
+	if !*flagWriteBaseline {
+		redo := map[string]bool{}
+		for _, ob := range all {
+			if ob.Status == "discharged" || (ob.Kind != "inv-entry" && ob.Kind != "inv-step") {
+				continue
+			}
+			var ord int
+			if _, err := fmt.Sscanf(ob.Label, "loop%d:", &ord); err != nil {
+				continue
+			}
+			if notInductive[ob.Func] == nil {
+				notInductive[ob.Func] = map[int]bool{}
+			}
+			notInductive[ob.Func][ord] = true
+			redo[ob.Host] = true
+			redo[ob.Func] = true
+		}
+		var fresh []*Obligation
+		for i, rep := range reports {
+			if !redo[rep.Key] {
+				continue
+			}
+			fn := ld.byKey[rep.Key]
+			if fn == nil {
+				continue
+			}
+			for f := range loopMatches {
+				if notInductive[fnKeyOf(f)] != nil {
+					delete(loopMatches, f)
+				}
+			}
+			old := map[*Obligation]bool{}
+			for _, ob := range admitted[rep.Key] {
+				old[ob] = true
+			}
+			kept := all[:0]
+			for _, ob := range all {
+				if !old[ob] {
+					kept = append(kept, ob)
+				}
+			}
+			all = kept
+			nrep := ex.verifyFunction(fn)
+			nrep.Dependency = rep.Dependency
+			reports[i] = nrep
+			admitted[rep.Key] = admit(nrep)
+			fresh = append(fresh, admitted[rep.Key]...)
+		}
+		if len(fresh) > 0 {
+			batchDischarge(fresh, work, *flagTimeout, agree, numWorkers())
+			all = append(all, fresh...)
+		}
 	}
 	solveS := time.Since(tSolve).Seconds()
 
@@ -522,6 +587,19 @@ func finish(ld *Loaded, db *SpecDB, reports []*FuncReport, groups map[string]*ob
 	evidenceExtra["bounded_loops"] = boundedLoops
 	for _, fnk := range sortedKeys(droppedLoopSpecs) {
 		fmt.Printf("NOTE: %s: loop specification block(s) %v have no loop any more and are not checked\n", fnk, droppedLoopSpecs[fnk])
+	}
+	if len(notInductive) > 0 {
+		ni := map[string][]int{}
+		for fnk, set := range notInductive {
+			for o := range set {
+				ni[fnk] = append(ni[fnk], o)
+			}
+			sort.Ints(ni[fnk])
+		}
+		for _, fnk := range sortedKeys(ni) {
+			fmt.Printf("NOTE: %s: the invariants of loop block(s) %v do not hold for the loop as it is now; the block is set aside and the loop is checked by unrolling (bound %d iterations) - bounded, not a proof\n", fnk, ni[fnk], unrollBound)
+		}
+		evidenceExtra["loop_specs_not_inductive"] = ni
 	}
 	evidenceExtra["loop_specs_dropped"] = droppedLoopSpecs
 	for _, fnk := range sortedKeys(goneFuncs) {
